@@ -584,8 +584,12 @@ protected:
     // XXX: similar precision as the interval domain
     for (auto kv : e) {
       const variable_t &pivot = kv.second;
-      interval_t i = compute_residual(e, pivot) / interval_t(kv.first);
-      if (auto k = i.singleton()) {
+      interval_t residual = compute_residual(e, pivot);
+      interval_t coef(kv.first);
+      interval_t i = residual / coef;
+      auto k = i.singleton();
+      // pivot != k follows only if the division is exact (coef * k == residual)
+      if (k && (i * coef == residual)) {
         add_univar_disequation(pivot, *k);
       }
     }
